@@ -901,7 +901,22 @@ func ruleC29(c *Ctx, r *Report) {
 			}
 			nu++
 			cons := fmt.Sprintf("clone:password-list-copied#%d", nu)
-			if _, fresh := stripValue(mu.Value).(*ssa.MakeSlice); fresh {
+			fresh := false
+			switch x := stripValue(mu.Value).(type) {
+			case *ssa.MakeSlice:
+				fresh = true
+			case *ssa.Call: // append(make([]string, 0, n), v...) / append([]string(nil), v...)
+				if bi, ok := x.Call.Value.(*ssa.Builtin); ok && bi.Name() == "append" {
+					base := stripValue(x.Call.Args[0])
+					if _, ok := base.(*ssa.MakeSlice); ok {
+						fresh = true
+					}
+					if isNilConst(base) {
+						fresh = true
+					}
+				}
+			}
+			if fresh {
 				r.ok(rule, name, cons, c.Pos(mu.Pos()), "the clone gets a newly made password list (filled by copy)")
 			} else {
 				r.viol(rule, name, cons, c.Pos(mu.Pos()), "the cloned UserManager shares a password list's backing array with the manager handshakes are reading: editing the clone during a prepare changes which credentials authenticate before (or without) the commit")
@@ -919,7 +934,9 @@ func ruleC29(c *Ctx, r *Report) {
 			if c.IsMockFunc(fn) || fn == rebuild {
 				continue
 			}
-			for _, in := range callsIn(fn, func(cc *ssa.CallCommon) bool { return callsFunc(cc, rebuild) || callsFunc(cc, clear) || callsFunc(cc, add) }) {
+			for _, in := range callsIn(fn, func(cc *ssa.CallCommon) bool {
+				return callsFunc(cc, rebuild) || callsFunc(cc, clear) || callsFunc(cc, add)
+			}) {
 				cc := callCommon(in)
 				recv := stripValue(resolveLoad(stripValue(cc.Args[0])))
 				n++
@@ -2263,29 +2280,31 @@ func ruleC15(c *Ctx, r *Report) {
 		hqs := callsIn(exec, func(cc *ssa.CallCommon) bool { return callsFunc(cc, hq) })
 		rws := callsIn(exec, func(cc *ssa.CallCommon) bool { f := staticCallee(cc); return f != nil && rewriteFns[f] })
 		bds := callsIn(exec, func(cc *ssa.CallCommon) bool { return callsFunc(cc, bind) })
-		if len(hqs) != 1 || len(rws) != 1 || len(bds) != 1 {
-			r.undecided(rule, name, "exec:shape", c.Pos(exec.Pos()), "expected one handleQuery, one GetRewriteSQL and one bindStmtArgs call")
+		if len(hqs) == 0 || len(rws) != 1 || len(bds) != 1 {
+			r.undecided(rule, name, "exec:shape", c.Pos(exec.Pos()), "expected handleQuery call(s), one GetRewriteSQL and one bindStmtArgs call")
 		} else {
-			sqlArg := callCommon(hqs[0]).Args[len(callCommon(hqs[0]).Args)-1]
+			// every text handed to handleQuery is the rewritten one (after bindStmtArgs succeeded) or, where no parameter
+			// was bound (not after bindStmtArgs), the prepared text itself; one of them is the rewritten text
 			fSQL := c.Field(serverRel, "Stmt", "sql")
 			good := true
 			nRew := 0
-			for _, l := range phiLeaves(sqlArg) {
-				if ex, ok := l.(*ssa.Extract); ok && ex.Tuple == rws[0].(ssa.Value) && ex.Index == 0 {
-					nRew++
-					continue
-				}
-				if loadedField(l) == fSQL {
-					// the prepared text itself is executed only where no parameter was bound: not after bindStmtArgs
-					if ld, ok := l.(ssa.Instruction); ok && (ld.Block() == bds[0].Block() || blockReachable(bds[0].Block(), ld.Block())) {
-						good = false
+			for _, hqc := range hqs {
+				sqlArg := callCommon(hqc).Args[len(callCommon(hqc).Args)-1]
+				for _, l := range phiLeaves(sqlArg) {
+					if ex, ok := l.(*ssa.Extract); ok && ex.Tuple == rws[0].(ssa.Value) && ex.Index == 0 {
+						nRew++
+						continue
 					}
-					continue
+					if loadedField(l) == fSQL {
+						if ld, ok := l.(ssa.Instruction); ok && (ld.Block() == bds[0].Block() || blockReachable(bds[0].Block(), ld.Block())) {
+							good = false
+						}
+						continue
+					}
+					good = false
 				}
-				good = false
 			}
-			if good && nRew == 1 && dominatedByNilErr(rws[0], bds[0].(*ssa.Call)) {
-				// the raw text is used only when the statement has no parameters: the rewrite is on the paramCount>0 edge
+			if good && nRew >= 1 && dominatedByNilErr(rws[0], bds[0].(*ssa.Call)) {
 				r.ok(rule, name, "exec:runs-rewritten-text", c.Pos(hqs[0].Pos()), "the text executed is GetRewriteSQL's result (after bindStmtArgs succeeded) or, for a statement without parameters, the prepared text")
 			} else {
 				r.viol(rule, name, "exec:runs-rewritten-text", c.Pos(hqs[0].Pos()), "the text executed for a statement with parameters is not GetRewriteSQL's result after a successful bindStmtArgs")
@@ -3166,11 +3185,24 @@ func ruleC36(c *Ctx, r *Report) {
 	for _, fn := range []*ssa.Function{parseBlack, setFP, getMD5} {
 		name := c.FuncName(fn)
 		calls := callsIn(fn, func(cc *ssa.CallCommon) bool { return callsFunc(cc, md5) })
+		in := fn
+		if len(calls) == 0 {
+			// the composition may have been extracted into an unexported helper of the same package
+			allInstrs(fn, func(x ssa.Instruction) {
+				if cc := callCommon(x); cc != nil {
+					if h := staticCallee(cc); h != nil && h.Pkg == fn.Pkg && len(h.Blocks) > 0 && h != fn {
+						if hc := callsIn(h, func(cc2 *ssa.CallCommon) bool { return callsFunc(cc2, md5) }); len(hc) == 1 && len(calls) == 0 {
+							calls, in = hc, h
+						}
+					}
+				}
+			})
+		}
 		if len(calls) != 1 {
 			r.viol(rule, name, "same:md5-of-fingerprint", c.Pos(fn.Pos()), "expected exactly one GetMd5 call")
 			continue
 		}
-		if fpOf(fn, callCommon(calls[0]).Args[0]) {
+		if fpOf(in, callCommon(calls[0]).Args[0]) {
 			r.ok(rule, name, "same:md5-of-fingerprint", c.Pos(calls[0].Pos()), "GetMd5 is applied to GetFingerprint(text)")
 		} else {
 			r.viol(rule, name, "same:md5-of-fingerprint", c.Pos(calls[0].Pos()), "the MD5 is not taken of GetFingerprint(text): blacklist keys and request keys are normalised differently, so variants of a blacklisted statement are not recognised")
@@ -3216,9 +3248,9 @@ func ruleC36(c *Ctx, r *Report) {
 		allInstrs(isAllowed, func(in ssa.Instruction) {
 			switch x := in.(type) {
 			case *ssa.BinOp:
-				// len(n.sqls) == 0
-				if x.Op == token.EQL {
-					if k, ok := constInt(x.Y); ok && k == 0 {
+				// len(n.sqls) == 0   (or < 1)
+				if x.Op == token.EQL || x.Op == token.LSS {
+					if k, ok := constInt(x.Y); ok && ((x.Op == token.EQL && k == 0) || (x.Op == token.LSS && k == 1)) {
 						if l, ok := stripValue(x.X).(*ssa.Call); ok {
 							if bi, ok := l.Call.Value.(*ssa.Builtin); ok && bi.Name() == "len" && fSqls != nil && mapOfField(l.Call.Args[0], fSqls) {
 								for _, e := range condEdges(x) {
@@ -3245,6 +3277,15 @@ func ruleC36(c *Ctx, r *Report) {
 			if b, ok := constBool(ret.Results[0]); ok && !b {
 				continue
 			}
+			// `return !found` where found is the comma-ok of the blacklist lookup: allowed exactly on a miss
+			if u, ok := stripValue(ret.Results[0]).(*ssa.UnOp); ok && u.Op == token.NOT {
+				if ex, ok := stripValue(u.X).(*ssa.Extract); ok && ex.Index == 1 {
+					if lk, ok := ex.Tuple.(*ssa.Lookup); ok && lk.CommaOk && fSqls != nil && mapOfField(lk.X, fSqls) {
+						nt++
+						continue
+					}
+				}
+			}
 			nt++
 			dom := false
 			for _, e := range okEdges {
@@ -3262,30 +3303,75 @@ func ruleC36(c *Ctx, r *Report) {
 			r.viol(rule, name, "gate:allowed-only-on-miss", c.Pos(isAllowed.Pos()), "IsSQLAllowed can answer `allowed` without having looked the statement's fingerprint up (a pre-check decides by other means that it cannot be blacklisted): variants of a blacklisted statement that the pre-check classifies differently than the fingerprint pass")
 		}
 	}
-	// ---- (gate)
+	// ---- (gate) checkSQLAllowed returns nil only when the blacklist lookup said `allowed` — directly, or through an
+	// unexported helper whose own nil returns are gated that way
 	{
 		name := c.FuncName(checkAllowed)
-		calls := callsIn(checkAllowed, func(cc *ssa.CallCommon) bool { return callsFunc(cc, isAllowed) })
-		good := len(calls) == 1
-		if good {
-			for _, ret := range returnsOf(checkAllowed) {
+		gated := map[*ssa.Function]bool{}
+		var isGated func(fn *ssa.Function, depth int) bool
+		isGated = func(fn *ssa.Function, depth int) bool {
+			if v, ok := gated[fn]; ok {
+				return v
+			}
+			if depth == 0 || len(fn.Blocks) == 0 || errResultIndex(fn.Signature) < 0 {
+				return false
+			}
+			gated[fn] = false
+			direct := callsIn(fn, func(cc *ssa.CallCommon) bool { return callsFunc(cc, isAllowed) })
+			var viaHelper []*ssa.Call
+			allInstrs(fn, func(in ssa.Instruction) {
+				if call, ok := in.(*ssa.Call); ok {
+					if h := staticCallee(&call.Call); h != nil && h != fn && h.Pkg == fn.Pkg && isGated(h, depth-1) {
+						viaHelper = append(viaHelper, call)
+					}
+				}
+			})
+			if len(direct) == 0 && len(viaHelper) == 0 {
+				return false
+			}
+			ok := true
+			for _, ret := range returnsOf(fn) {
 				isNil, known := returnsNilError(ret)
 				if known && !isNil {
 					continue
 				}
-				if !dominatedByCond(ret, calls[0].(ssa.Value), true) {
-					good = false
+				dom := false
+				for _, d := range direct {
+					if dominatedByCond(ret, d.(ssa.Value), true) {
+						dom = true
+					}
+				}
+				for _, h := range viaHelper {
+					if dominatedByNilErr(ret, h) {
+						dom = true
+					}
+				}
+				// `return helper(...)`: the helper's own verdict is handed on
+				if !dom && len(ret.Results) > 0 {
+					for _, l := range phiLeaves(ret.Results[len(ret.Results)-1]) {
+						if call, ok := l.(*ssa.Call); ok {
+							for _, h := range viaHelper {
+								if call == h {
+									dom = true
+								}
+							}
+						}
+					}
+				}
+				if !dom {
+					ok = false
 				}
 			}
+			gated[fn] = ok
+			return ok
 		}
-		if good {
+		if isGated(checkAllowed, 2) {
 			r.ok(rule, name, "gate:nil-only-when-allowed", c.Pos(checkAllowed.Pos()), "success is returned only on the IsSQLAllowed()==true edge")
 		} else {
 			r.viol(rule, name, "gate:nil-only-when-allowed", c.Pos(checkAllowed.Pos()), "checkSQLAllowed can return success for a statement the blacklist matched")
 		}
 	}
 }
-
 
 // credentialCheckFns: Manager.Check*Password and every function of proxy/server with results (bool, string) that merely
 // dispatches to them: each of its returns hands back (#0, #1) of one call to a check function, or (false, "").
